@@ -15,6 +15,7 @@ Functions:
 
 from __future__ import annotations
 
+import copy
 import itertools as it
 from collections.abc import Callable
 from dataclasses import dataclass
@@ -69,6 +70,10 @@ def _update_parameters_and_initial_conditions[T](
         Result of the function execution.
 
     """
+    # Every result keeps a reference to the model it was computed with and
+    # evaluates it lazily, so each row needs a model of its own. Worker processes
+    # get one by pickling, do the same when running sequentially.
+    model = copy.deepcopy(model)
     pd = pars.to_dict()
     model.update_variables({k: v for k, v in pd.items() if k in model._variables})  # noqa: SLF001
     model.update_parameters({k: v for k, v in pd.items() if k in model._parameters})  # noqa: SLF001
